@@ -322,6 +322,15 @@ pub fn s_amt() -> Vec<WCfg> {
             }
             out.push(c);
         }
+        // a single HTLC at the very top of the 64-bit range: the sum of one part cannot overflow, the requirement
+        // (amount + policy fee) does; nothing may be paid (beyond A3 for real channels, but a legal request)
+        for (an, a, htlc) in [("max-10/htlc-max", u64::MAX - 10, u64::MAX), ("max/htlc-max", u64::MAX, u64::MAX), ("max-10/htlc-max-1", u64::MAX - 10, u64::MAX - 1)] {
+            let mut c = mk(&format!("amountless/{}", an));
+            let inv = c.add_invoice(&InvoiceSpec::amountless(3));
+            let t = add_htlc_full(&mut c, "z1", inv, htlc, Some(u64::MAX), Some(common::tu64(a)));
+            set_amount(&mut c, t, a);
+            out.push(c);
+        }
     }
     out
 }
